@@ -42,6 +42,9 @@ def _case(draw):
         names = retro.GENERATORS + retro.SMOOTHERS
         if not sc["ssp"]:
             names = [n for n in names if n not in retro.NEEDS_SINGLE_SAMPLE_PLATES] + ["MergeMin"]
+        else:
+            # the smoothers that merge plates in place (the only operators that write into the screen they work on) twice as often
+            names = names + ["MergeMin", "MergeMin", "MergeTopBottom", "BatchieEnsemble"]
         ops = [draw(retro.operator(names)) for _ in range(3)]
     return {
         "screen": sc,
@@ -53,6 +56,20 @@ def _case(draw):
 
 def strategy(tier):
     return _case()
+
+
+def exhaustive(tier):
+    # fixed layouts on which every merging smoother really merges plates whose experiments carry pairwise different values
+    for a in (2, 1, 3):
+        rows = []
+        for s_ in range(2):
+            for j in range(5):
+                for r_ in range(1 + (j + s_) % 3):
+                    k_ = len(rows)
+                    rows.append({"s": "s%d" % s_, "p": "%02d_p%d_%d" % ((7 * j + 3 * s_) % 11, s_, j), "t": (["t%d" % (k_ % 4), "t%d" % ((k_ + 1 + r_) % 4), "ctl"])[:a], "d": ([1.0, 2.0, 0.0])[:a], "o": round(0.05 + 0.03 * k_, 4)})
+        rows.append({"s": "s0", "p": "zz_obs", "t": (["t0", "ctl", "ctl"])[:a], "d": ([1.0, 0.0, 0.0])[:a], "o": 0.9})
+        sc = {"arity": a, "control": "ctl", "rows": rows, "observed": ["zz_obs"], "ns": 2, "nt": 8, "ssp": True}
+        yield {"screen": sc, "ops": [{"name": "MergeMin", "min_size": 4}, {"name": "MergeTopBottom", "n_iterations": 2}, {"name": "BatchieEnsemble", "min_size": 3, "n_iterations": 1, "k": 1}], "seed": 5 + a, "fraction": 0.5}
 
 
 def _included(small, big):
